@@ -6,6 +6,7 @@ import SaphyrModel.Proofs.Counting
 import SaphyrModel.Proofs.BlockFold
 import SaphyrModel.Props.C04
 import SaphyrModel.Sc.MI.TokSpan
+import SaphyrModel.Sc.NT.TokOrd2
 /-! # C12 — Reported positions are true positions
 
 **Parser half, proved for every token list** (`event_spans_are_token_spans` and its corollaries): the
@@ -336,5 +337,23 @@ theorem scalar_token_spans_ordered (s : Sc) (tok : Token) (s' : Sc) :
   ⟨fun single h => (TS.scanFlowScalar single 0).out s tok s' (Nat.zero_le _) h,
    fun lit h => (TS.scanBlockScalar lit 0).out s tok s' (Nat.zero_le _) h,
    fun alias h => (TS.scanAnchor alias 0).out s tok s' (Nat.zero_le _) h⟩
+
+/-- **Each span starts no later than it ends — every token, every input.** For every text, every input back-end
+    and capacity, and however many tokens are pulled: every token the scanner delivers has
+    `start.index ≤ stop.index`. (Invariant: the queue only ever holds such tokens — each one is either an empty
+    span, or runs from a mark taken before something was consumed to a mark taken after, and the index never
+    decreases; proved function by function in `Sc/NT/TokOrd*.lean`.) -/
+theorem token_spans_ordered (k : InKind) (cap : Nat) (text : Str) (fuel : Nat) :
+    ∀ t ∈ (scanAll fuel (mkSc k cap text) []).1, t.span.start.index ≤ t.span.stop.index :=
+  scanAll_ord fuel (mkSc k cap text) [] (fun _ h => by simp [mkSc] at h) (fun _ h => by simp at h)
+
+/-- **… and every event.** For every text, back-end and capacity: feed the tokens the scanner delivers (all of
+    them, `sfuel` being enough or not) to the parser; every event span it reports starts no later than it ends.
+    This is the clause "each span starts no later than it ends" of C12 for the whole pipeline of the model. -/
+theorem event_spans_ordered_for_every_text (k : InKind) (cap : Nat) (text : Str) (sfuel pfuel : Nat)
+    (scanErr : Option ScanError) (eofm : Marker) (keep : Bool) :
+    ∀ v ∈ (iterate pfuel (Api.init (PState.init (scanAll sfuel (mkSc k cap text) []).1 scanErr eofm keep)) []).1,
+      v.2.start.index ≤ v.2.stop.index :=
+  event_spans_ordered _ scanErr eofm keep pfuel (token_spans_ordered k cap text sfuel)
 
 end SaphyrModel.C12
